@@ -974,7 +974,7 @@ func Compare(exp *Response, act *Actual, withCalls bool) []Diff {
 		ds = append(ds, Diff{"data", "no data in the response; errors " + fmt.Sprint(act.Errs)})
 		return ds
 	}
-	if !exp.Data.Equal(act.Data) {
+	if !exp.Data.Matches(act.Data) {
 		ds = append(ds, Diff{"data", "data is " + act.Data.String() + ", the model says " + exp.Data.String()})
 	}
 	ep, ap := pathsOf(exp.Errs), pathsOf(act.Errs)
